@@ -24,6 +24,7 @@ ASSUMPTIONS = ["'identically configured' = the twin replays the history's config
 PROBES = [
     "*a* [r] \"q\" (c) -- ...\n\n[r]: /x 't'\n", "> - 1. x\n\ty\n\n<b>z</b>\n", "a|b\n-|-\n~~s~~ http://x.y\n", "[r] [R] [leak]\n", "```py\nc\n```\n![i](s \"t\")\n",
     "---\n", "# h\n\nt\n===\n", "    code\n\n1. a\n2. b\n", "[x](javascript:1) <http://a.b> &amp; \\*\n", "line  \nbreak\\\nsoft\nend\n", "'single' \"double\" it's\n", "<div>\n*x*\n</div>\n\n- [ ] t\n",
+    "|l|c|r|\n|:-|:-:|-:|\n|1|2|3|\n", "7. seven\n8. eight\n\n![img](s 'ti') [lnk](u \"tt\")\n",
 ]
 PANEL = [
     ("commonmark", {}), ("js-default", {}), ("zero", {}), ("gfm-like", {"linkify": False}), ("default", {}),
@@ -40,7 +41,7 @@ OPTS = [("breaks", True), ("breaks", False), ("xhtmlOut", False), ("xhtmlOut", T
 def floors(tier):
     q = tier == "quick"
     return {"histories": 3000 if q else 80000, "steps": 60000, "step.new": 5000, "step.parse_noenv_defs": 3000, "step.shared_env": 2000, "step.use": 500,
-            "step.rrule": 500, "step.mutate_result": 1000, "step.badcall": 1000, "probe.used_vs_twin": 100000, "probe.pristine_panel": 3000,
+            "step.rrule": 500, "step.mutate_result": 1000, "step.set": 500, "step.badcall": 1000, "probe.used_vs_twin": 100000, "probe.pristine_panel": 3000,
             "fingerprints": 3000, "instances": 5000}
 
 
@@ -86,6 +87,8 @@ def apply_config(md, st):
         md.use(plugin_core, tag=st["tag"])
     elif k == "configure":
         md.configure(st["preset"], copy.deepcopy(st["opts"]) or None)
+    elif k == "set_snapshot":
+        md.set(copy.deepcopy(st["opts"]))
 
 
 def run_history(ctx, steps, record=True):
@@ -125,9 +128,15 @@ def run_history(ctx, steps, record=True):
                 if st.get("mutate") and isinstance(res, list) and res:
                     if record:
                         ctx.count("step.mutate_result")
-                    for t in res[:3]:
+                    # the caller owns what a parse returned: edit every token in place (attrs, meta, map, children)
+                    for t in list(walk_tokens(res)):
                         t.attrs["data-x"] = "1"
+                        for k2 in list(t.attrs):
+                            if isinstance(t.attrs[k2], str):
+                                t.attrs[k2] += "!"
                         t.meta["k"] = 1
+                        if t.map:
+                            t.map[0] += 100
                         if t.children:
                             t.children.append(copy.copy(t.children[0]))
                     sh = shared.get(i)
@@ -138,6 +147,19 @@ def run_history(ctx, steps, record=True):
             except Exception:
                 if record:
                     ctx.count("step.raised")
+        elif k == "set":
+            # install options through the public set(): from another instance's options object, or from a dict the caller keeps
+            src_i = st["from"] % len(insts)
+            snap = {kk: (vv if not isinstance(vv, list) else list(vv)) for kk, vv in dict(insts[src_i].options).items()}
+            if st["how"] == "options_object":
+                md.set(insts[src_i].options)
+            elif st["how"] == "shared_dict":
+                shared.setdefault("dicts", {}).setdefault(st["name"], dict(snap))
+                snap = dict(shared["dicts"][st["name"]])
+                md.set(shared["dicts"][st["name"]])
+            else:
+                md.set(dict(snap))
+            cfg[i].append({"k": "set_snapshot", "opts": snap})
         elif k == "badcall":
             for bad in (lambda: md.parse(123), lambda: md.enable("nope"), lambda: md.render("x", []), lambda: md.configure("nosuch"),
                         lambda: md.disable(["emphasis", "nope2"])):
@@ -151,6 +173,13 @@ def run_history(ctx, steps, record=True):
             apply_config(md, st)
             cfg[i].append(st)
     return insts, cfg
+
+
+def walk_tokens(ts):
+    for t in ts:
+        yield t
+        if t.children:
+            yield from walk_tokens(t.children)
 
 
 def build_twin(cfgsteps):
@@ -223,7 +252,7 @@ def gen_history(rng):
     ninst = 0
     for s in range(n):
         k = rng.choice(["new", "parse", "parse", "render", "render", "parseInline", "renderInline", "enable", "disable", "opt_item", "opt_attr", "rrule",
-                        "use", "configure", "badcall", "parse"])
+                        "use", "configure", "badcall", "parse", "set"])
         if ninst == 0 or (k == "new" and ninst < 3):
             p = rng.choice(["commonmark", "js-default", "zero", "gfm-like"])
             o = copy.deepcopy(rng.choice([{}, {"typographer": True}, {"html": False}, {"quotes": ["<", ">", "(", ")"], "typographer": True},
@@ -250,6 +279,8 @@ def gen_history(rng):
             steps.append({"k": k, "i": i, "tag": rng.choice(["P", "Q"]) + str(s)})
         elif k == "configure":
             steps.append({"k": k, "i": i, "preset": rng.choice(["commonmark", "js-default", "zero"]), "opts": rng.choice([{}, {"typographer": True}, {"html": False}])})
+        elif k == "set":
+            steps.append({"k": "set", "i": i, "from": rng.randrange(3), "how": rng.choice(["options_object", "shared_dict", "copy"]), "name": rng.choice("xy")})
         else:
             steps.append({"k": "badcall", "i": i})
     return steps
